@@ -18,22 +18,22 @@ FLG_OPEN = _cp.FLG_OPEN
 FLG_FORGIVE = _cp.FLG_FORGIVE
 PSEUDO_SIMPLE_NO_MATCH = _cp.PSEUDO_SIMPLE_NO_MATCH
 PSEUDO_COMPLEX = _cp.PSEUDO_COMPLEX
-CSS_DEFINED = _cp.CSS_DEFINED
-CSS_LINK = _cp.CSS_LINK
-CSS_CHECKED = _cp.CSS_CHECKED
-CSS_DEFAULT = _cp.CSS_DEFAULT
-CSS_INDETERMINATE = _cp.CSS_INDETERMINATE
-CSS_DISABLED = _cp.CSS_DISABLED
-CSS_ENABLED = _cp.CSS_ENABLED
-CSS_REQUIRED = _cp.CSS_REQUIRED
-CSS_OPTIONAL = _cp.CSS_OPTIONAL
-CSS_READ_ONLY = _cp.CSS_READ_ONLY
-CSS_READ_WRITE = _cp.CSS_READ_WRITE
-CSS_IN_RANGE = _cp.CSS_IN_RANGE
-CSS_OUT_OF_RANGE = _cp.CSS_OUT_OF_RANGE
-CSS_PLACEHOLDER_SHOWN = _cp.CSS_PLACEHOLDER_SHOWN
-CSS_DIR_LTR = _cp.CSS_DIR_LTR
-CSS_DIR_RTL = _cp.CSS_DIR_RTL
+CSS_DEFINED = getattr(_cp, 'CSS_DEFINED', None)
+CSS_LINK = getattr(_cp, 'CSS_LINK', None)
+CSS_CHECKED = getattr(_cp, 'CSS_CHECKED', None)
+CSS_DEFAULT = getattr(_cp, 'CSS_DEFAULT', None)
+CSS_INDETERMINATE = getattr(_cp, 'CSS_INDETERMINATE', None)
+CSS_DISABLED = getattr(_cp, 'CSS_DISABLED', None)
+CSS_ENABLED = getattr(_cp, 'CSS_ENABLED', None)
+CSS_REQUIRED = getattr(_cp, 'CSS_REQUIRED', None)
+CSS_OPTIONAL = getattr(_cp, 'CSS_OPTIONAL', None)
+CSS_READ_ONLY = getattr(_cp, 'CSS_READ_ONLY', None)
+CSS_READ_WRITE = getattr(_cp, 'CSS_READ_WRITE', None)
+CSS_IN_RANGE = getattr(_cp, 'CSS_IN_RANGE', None)
+CSS_OUT_OF_RANGE = getattr(_cp, 'CSS_OUT_OF_RANGE', None)
+CSS_PLACEHOLDER_SHOWN = getattr(_cp, 'CSS_PLACEHOLDER_SHOWN', None)
+CSS_DIR_LTR = getattr(_cp, 'CSS_DIR_LTR', None)
+CSS_DIR_RTL = getattr(_cp, 'CSS_DIR_RTL', None)
 
 
 @abstract
